@@ -291,7 +291,8 @@ func genCase(rng *rand.Rand, n int, seed int64, pf Profile) *CaseDesc {
 					case 5:
 						p.Loose = append(p.Loose, cI0)
 					case 6:
-						p.Loose = append(p.Loose, pick(rng, []int{cI0, cI1}))
+						// (Loose for I2 -- both method sets -- says nothing about I0 or I1)
+						p.Loose = append(p.Loose, pick(rng, []int{cI0, cI1, cI2}))
 					case 7:
 						p.Loose = append(p.Loose, cI1)
 					}
